@@ -10,7 +10,7 @@ Family
          and nothing else changed.  At the end of each walk the arrays mode is
          run on the same script with a random subset/order of return_statuses.
 """
-from eonsim import contagion, markov, walks
+from eonsim import contagion, lawtest, markov, walks
 from eonsim.explorer import Skip
 
 PROPERTY = "C03"
@@ -28,11 +28,138 @@ COMPONENTS = {"real": ["EoN.Gillespie_simple_contagion", "EoN._ListDict_", "EoN.
               "stub": ["random source (SimRandom scripted)", "user rate functions (pure functions of node/edge attributes)"]}
 
 
+LAW_N = {"quick": 10000, "thorough": 100000}
+LAW_CFGS = {"quick": 16, "thorough": 64}
+LAW_BATCHES = 4
+
+
 def plan(tier):
-    return [("walk", 1600 if tier == "quick" else 60000)]
+    return [("walk", 1600 if tier == "quick" else 60000), ("law", LAW_CFGS[tier] * LAW_BATCHES)]
+
+
+# ------------------------------------------------------------------ E3
+# implementation-agnostic back-up of the E1 walks: seeded samples of the whole
+# simulator against expm(Q T) of the specification's own generator (built by the
+# reference interpreter on the reachable state space).
+def law_cfgs(seed, tier):
+    import random
+    from eonsim import framework
+    out = []
+    j = 0
+    k = 0
+    while len(out) < LAW_CFGS[tier] and k < 2000:
+        rng = random.Random(framework.derive_int(seed, PROPERTY, "lawcfg", k))
+        k += 1
+        case = contagion.gen_simple_case(rng, nmax=4)
+        if len(case["statuses"]) > 4 or not case["graph"]["edges"]:
+            continue
+        if not (case["spont"] or case["induced"]):
+            continue
+        case["tmin"] = 0
+        case["tmax"] = 3.0
+        case["T"] = [0.5, 2.0]
+        # rates of 10 make the chain mix before T; keep them moderate
+        for x in case["spont"]:
+            x[2] = min(x[2], 1.3)
+        for x in case["induced"]:
+            x[3] = min(x[3], 1.3)
+        ad = contagion.SimpleAdapter(dict(case, prefix=[]))
+        if sum(ad.ref.enabled(ad.init_state).values()) <= 0:
+            continue
+        if lawtest.generic_dist_at(ad.ref, ad.init_state, 0.5) is None:
+            continue
+        out.append(case)
+    return out
+
+
+_CFG = {}
+
+
+def _cfgs(seed, tier):
+    if (seed, tier) not in _CFG:
+        _CFG[(seed, tier)] = law_cfgs(seed, tier)
+    return _CFG[(seed, tier)]
+
+
+def law_sample(case, n, seed):
+    import eonsim
+    EoN = eonsim.load_eon()
+    ad = contagion.SimpleAdapter(dict(case, prefix=[]))
+    kw = dict(tmin=0, tmax=case["tmax"], return_full_data=True)
+    if ad.spont_kwargs:
+        kw["spont_kwargs"] = ad.spont_kwargs
+    if ad.nbr_kwargs:
+        kw["nbr_kwargs"] = ad.nbr_kwargs
+    IC = ad._ic()
+    ret = list(ad.ret)
+    labels = ad.labels
+
+    def call():
+        return EoN.Gillespie_simple_contagion(ad.G, ad.H, ad.J, IC, ret, **kw)
+
+    def stat(inv):
+        out = []
+        for j, tt in enumerate(case["T"]):
+            d = inv.get_statuses(time=tt)
+            out.append((j, repr(tuple(d[x] for x in labels))))
+        return out
+    import io
+    import sys
+    old = sys.stdout
+    sys.stdout = io.StringIO()
+    try:
+        return lawtest.sample_counts(call, n, seed, stat)
+    finally:
+        sys.stdout = old
+
+
+def law_expected(case):
+    ad = contagion.SimpleAdapter(dict(case, prefix=[]))
+    return {j: {repr(s): p for s, p in lawtest.generic_dist_at(ad.ref, ad.init_state, tt).items()}
+            for j, tt in enumerate(case["T"])}
+
+
+def finalize(parts, tier, seed):
+    cfgs = _cfgs(seed, tier)
+    by = {}
+    for (_f, _i), p in parts:
+        d = by.setdefault(p["cfg"], {"n": 0, "counts": {}})
+        d["n"] += p["n"]
+        for k, v in p["counts"].items():
+            d["counts"][k] = d["counts"].get(k, 0) + v
+    tests, keys = [], []
+    for j in sorted(by):
+        for statname, dist in law_expected(cfgs[j]).items():
+            counts = {eval(k)[1]: v for k, v in by[j]["counts"].items() if eval(k)[0] == statname}
+            cells = lawtest.test_cells(by[j]["n"], counts, dist)
+            tests.append(((j, statname), by[j]["n"], cells))
+            keys.extend("law|%d|%s|%s" % (j, statname, c[0]) for c in cells)
+    fails, ncells, worst = lawtest.decide(tests)
+    viol = []
+    for (label, k, o, n, p, pv) in fails[:3]:
+        viol.append({"cls": "law", "key": "Gillespie_simple_contagion/law",
+                     "msg": "config %d (template %s): T index %r, statuses %s observed %d of %d, master equation %.6g, p=%.3g"
+                            % (label[0], cfgs[label[0]].get("template"), label[1], k, o, n, p, pv),
+                     "case": {"law_cfg": cfgs[label[0]], "n": n, "seed": seed, "cfg_index": label[0]}, "family": "law", "idx": label[0]})
+    stats = {"law_cells_tested": ncells, "law_configs": len(by)}
+    if worst:
+        stats["law_worst_z"] = round(worst[0], 3)
+    return {"viol": viol, "stats": stats, "keys": keys}
 
 
 def run_one(family, rng, idx, tier):
+    if family == "law":
+        import os
+        from eonsim import framework
+        seed = int(os.environ.get("VERIF_SEED", framework.DEFAULT_SEED))
+        cfgs = _cfgs(seed, tier)
+        j, b = divmod(idx, LAW_BATCHES)
+        if j >= len(cfgs):
+            return {"skipped": "no law configuration", "stats": {"evaluations": 0}}
+        n = LAW_N[tier]
+        counts = law_sample(cfgs[j], n, rng.getrandbits(48))
+        return {"partial": {"cfg": j, "n": n, "counts": {repr(k): v for k, v in counts.items()}},
+                "stats": {"evaluations": n, "law_runs": n}}
     case = contagion.gen_simple_case(rng)
     ad = contagion.SimpleAdapter(case)
     stats, keys = {}, set()
@@ -66,6 +193,15 @@ def run_one(family, rng, idx, tier):
 
 def replay(case):
     import random
+    if "law_cfg" in case:
+        cfg, n = case["law_cfg"], case["n"]
+        counts = law_sample(cfg, n, case["seed"] * 7919 + case["cfg_index"])
+        tests = []
+        for statname, dist in law_expected(cfg).items():
+            c = {k[1]: v for k, v in counts.items() if k[0] == statname}
+            tests.append(((0, statname), n, lawtest.test_cells(n, c, dist)))
+        fails, _, _ = lawtest.decide(tests)
+        return [{"cls": "law", "key": "Gillespie_simple_contagion/law", "msg": "replay %r" % (fails[0],), "case": case}] if fails else []
     ad = contagion.SimpleAdapter(case)
     prefix = markov.norm_prefix(case)
 
